@@ -231,7 +231,7 @@ func H_C01_struct() {
 			vxrt.Assert(vxrt.FSStamp() == stamp, "C01:replay-no-write")
 		}
 	}
-	got, _, err := getPrevSnapshot("[TestZ - 1]", dir+"/f.snap")
+	got, _, err := refPrev("[TestZ - 1]", dir+"/f.snap")
 	vxrt.Assert(err == nil && got == "z", "C01:bystander-entry-intact")
 }
 
